@@ -1,10 +1,32 @@
 # LZ4 block codec (src/compression/lz4.c): C08 decoder safety, C09 bounds, C10 format
-L8 = dict(overlays=['contracts/lz4.ovl'], harness='harness/C08/lz4.c')
+OVL = ['contracts/lz4.ovl']
+# lz4_count's inner byte scan (at most 8 steps, a != b) is unwound, never given a contract; every job that
+# applies the overlay's loop contracts must therefore carry this unwindset
+UW = ['lz4_count.0:9']
+L8 = dict(overlays=OVL, harness='harness/C08/lz4.c', extra_sources=[],
+          trusted=['harness/C08/lz4.c: memcpy as contract (ranges accessible, whole destination object havocked)',
+                   'specs/lz4_spec.h: token/offset field definitions read from the LZ4 block format document'])
+L9 = dict(overlays=OVL, harness='harness/C09/lz4.c')
+L10 = dict(overlays=OVL, harness='harness/C10/lz4.c')
 FZ_D = dict(kind='fuzz', harness='replay/fz/lz4_decompress.c', sources=['src/compression/lz4.c'],
             max_len=48, secs=20)
+FZ_C = dict(kind='fuzz', harness='replay/fz/lz4_compress.c', sources=['src/compression/lz4.c'],
+            max_len=600, secs=30)
 
 JOBS = [
-    dict(name='c08_lz4_decompress', prop='C08', entry='h_lz4_decompress',
-         enforce='carquet_lz4_decompress', min_loop_obligations=6, est_s=60,
+    # C08: decoder on arbitrary bytes / sizes / capacity
+    dict(name='c08_lz4_decompress', props=['C08', 'C10'], entry='h_lz4_decompress',
+         enforce='carquet_lz4_decompress', unwindset=UW, min_loop_obligations=6, est_s=300, timeout=900, mem_gb=14,
          replayer=FZ_D, wip=True, **L8),
+    # C09: bound arithmetic (loop free)
+    dict(name='c09_lz4_compress_bound', prop='C09', entry='h_lz4_compress_bound',
+         enforce='carquet_lz4_compress_bound', loop_contracts=False, backend=['z3', 'sat'], wip=True, **L9),
+    # C09: match length counter used by the compressor (inner byte scan unwound: at most 8 steps)
+    dict(name='c09_lz4_count', prop='C09', entry='h_lz4_count', enforce='lz4_count',
+         unwindset=UW + ['memcpy.0:17'], defines=['CQV_MEMCPY_EXACT=16'], min_loop_obligations=2,
+         wip=True, **L9),
+    # C09: compressor: every write inside dst, result <= bound, bound-sized buffer always enough
+    dict(name='c09_lz4_compress', props=['C09', 'C10'], entry='h_lz4_compress', enforce='carquet_lz4_compress',
+         replace=['lz4_count', 'carquet_lz4_compress_bound'], unwindset=UW, min_loop_obligations=4, est_s=300,
+         timeout=900, mem_gb=14, replayer=FZ_C, wip=True, **L9),
 ]
